@@ -132,6 +132,13 @@ class SymInterp:
                     sc[st.name] = (lambda fi: (lambda *a, **k: self.call_function(fi, list(a), k)))(fi)
         return sc
 
+    def new_env(self, fi, **names):
+        """environment for interpreting statements of fi one by one: module-level names of fi's module (helpers, constants) behind the given local names"""
+        env = Scope(_Fallback(self.module_scope(fi.rel), self.builtins, self), ())
+        for k, v in names.items():
+            dict.__setitem__(env, k, v)
+        return env
+
     # ------------------------------------------------------------------ calling source functions
     def call_function(self, fi, args, kwargs=None):
         kwargs = kwargs or {}
@@ -143,6 +150,7 @@ class SymInterp:
             names = [x.arg for x in a.posonlyargs + a.args]
             globs = [n for x in ast.walk(fi.node) if isinstance(x, ast.Global) for n in x.names]
             env = Scope(_Fallback(self.module_scope(fi.rel), self.builtins, self), globs)
+            dict.__setitem__(env, "__fi__", fi)
             defaults = dict(zip(names[len(names) - len(a.defaults):], a.defaults))
             for i, n in enumerate(names):
                 if i < len(args):
@@ -425,6 +433,14 @@ class SymInterp:
                 if r:
                     return r
             return r
+        if isinstance(e, ast.Compare) and len(e.ops) > 1:
+            # chained comparison: a op1 b op2 c  ==  (a op1 b) and (b op2 c), every operand evaluated once
+            vals = [self.ev(e.left, env)] + [self.ev(c, env) for c in e.comparators]
+            for k, op in enumerate(e.ops):
+                ev2 = {"__l": vals[k], "__r": vals[k + 1]}
+                if not self.ev(ast.Compare(left=ast.Name(id="__l", ctx=ast.Load()), ops=[op], comparators=[ast.Name(id="__r", ctx=ast.Load())]), ev2):
+                    return False
+            return True
         if isinstance(e, ast.Compare) and len(e.ops) == 1:
             a, b = self.ev(e.left, env), self.ev(e.comparators[0], env)
             op = e.ops[0]
@@ -457,12 +473,12 @@ class SymInterp:
             g0, g1 = e.generators
             out = []
             for x in self.ev(g0.iter, env):
-                e2 = dict(env)
+                e2 = Scope(env, ()) if isinstance(env, Scope) else dict(env)
                 self.assign(g0.target, x, e2)
                 if not all(self.ev(c, e2) for c in g0.ifs):
                     continue
                 for y in self.ev(g1.iter, e2):
-                    e3 = dict(e2)
+                    e3 = Scope(e2, ()) if isinstance(e2, Scope) else dict(e2)
                     self.assign(g1.target, y, e3)
                     if all(self.ev(c, e3) for c in g1.ifs):
                         out.append(self.ev(e.elt, e3))
@@ -471,10 +487,19 @@ class SymInterp:
             g = e.generators[0]
             out = []
             for x in self.ev(g.iter, env):
-                e2 = dict(env)
+                e2 = Scope(env, ()) if isinstance(env, Scope) else dict(env)
                 self.assign(g.target, x, e2)
                 if all(self.ev(c, e2) for c in g.ifs):
                     out.append(self.ev(e.elt, e2))
+            return out
+        if isinstance(e, ast.DictComp) and len(e.generators) == 1:
+            g = e.generators[0]
+            out = {}
+            for x in self.ev(g.iter, env):
+                e2 = Scope(env, ()) if isinstance(env, Scope) else dict(env)
+                self.assign(g.target, x, e2)
+                if all(self.ev(c, e2) for c in g.ifs):
+                    out[self.ev(e.key, e2)] = self.ev(e.value, e2)
             return out
         if isinstance(e, ast.Call):
             return self.call(e, env)
@@ -494,6 +519,14 @@ class SymInterp:
                 kwargs[k.arg] = self.ev(k.value, env)
             else:
                 kwargs.update(dict(self.ev(k.value, env)))
+        if isinstance(f, ast.Name) and f.id == "super" and "super" not in self.builtins and "__fi__" in env:
+            # super() / super(Class, obj) inside a method of a source class: the method is looked up in the class hierarchy of the receiver's class, after the defining class
+            fi_ = env["__fi__"]
+            top = fi_
+            while top.parent is not None:
+                top = top.parent
+            recv = args[1] if len(args) == 2 else env[top.params()[0]]
+            return _SuperProxy(self, recv, top.cls)
         if isinstance(f, ast.Name):
             n = f.id
             if n in env and callable(env[n]):
@@ -512,6 +545,8 @@ class SymInterp:
             recv = self.ev(f.value, env)
             if isinstance(recv, Blob):
                 return Blob(f"{recv._name}.{f.attr}()")
+            if isinstance(recv, _SuperProxy):
+                return recv.call(f.attr, args, kwargs)
             if isinstance(recv, (list, tuple, str, dict)) or type(recv).__module__ == "collections":
                 return getattr(recv, f.attr)(*args, **kwargs)
             target = self.resolver(recv, f.attr)
@@ -529,6 +564,34 @@ class SymInterp:
                 return self.call_function(target, [recv] + args, kwargs)
             raise AnalysisError(f"method {f.attr} on {recv!r} cannot be resolved symbolically")
         raise AnalysisError(f"call `{unparse(e)[:50]}` outside the symbolic fragment")
+
+
+class _SuperProxy:
+    """result of super() in a method of a source class"""
+    def __init__(self, interp, recv, after_cls):
+        self.interp, self.recv, self.after = interp, recv, after_cls
+
+    def call(self, name, args, kwargs):
+        src = self.interp.src
+        cname = getattr(self.recv, "_cls", None)
+        cands = src.class_by_name.get(cname, []) if cname else []
+        start = cands[0] if cands else self.after
+        if start is None:
+            raise AnalysisError(f"super().{name}: the class of the receiver is unknown")
+        mro = src.mro(start)
+        if self.after in mro:
+            mro = mro[mro.index(self.after) + 1:]
+        # a stand-in may carry the contract of a base-class method under the name `super_<name>` (e.g. the tensor-level operation behind a prefactor-level one)
+        stub = getattr(self.recv, "__dict__", {}).get(f"super_{name}")
+        if callable(stub):
+            return stub(*args, **kwargs)
+        for ci in mro:
+            if name in ci.methods:
+                return self.interp.call_function(ci.methods[name], [self.recv] + list(args), kwargs)
+        py = getattr(type(self.recv), name, None)
+        if callable(py):
+            return getattr(self.recv, name)(*args, **kwargs)
+        raise AnalysisError(f"super().{name} not found above {getattr(self.after, 'name', '?')}")
 
 
 class SymRaise(Exception):
